@@ -39,6 +39,25 @@ int sp_ienv(int ispec)
 void vf_set_defaults_tune(void) { for (int i = 1; i <= 7; i++) vf_tune[i] = slu_default_sp_ienv(i); }
 
 /* ------------------------------------------------------------------ ledger */
+#ifdef VF_ASAN
+#define VF_RZ 0
+#else
+#define VF_RZ 16
+#endif
+#define VF_RZ_BYTE 0xC3
+long vf_n_overrun = 0; char vf_last_overrun[256];
+static int rz_ok(const void *p, size_t size) { const unsigned char *q = (const unsigned char *)p + size; for (int i = 0; i < VF_RZ; i++) if (q[i] != VF_RZ_BYTE) return 0; return 1; }
+
+/* user_bcopy (SRC/memory.c, compiled as slu_user_bcopy) moves the arrays behind an expanded one forward inside a caller
+   workspace; the range it vacates becomes the not-yet-written tail of the expanded array.  Poison it, so that a stale
+   pointer into the old location reads garbage deterministically instead of a still-intact copy. */
+extern void slu_user_bcopy(char *src, char *dest, int bytes);
+void user_bcopy(char *src, char *dest, int bytes)
+{
+    slu_user_bcopy(src, dest, bytes);
+    if (vf_fill_byte >= 0 && dest > src) { long gap = dest - src; if (gap > bytes) gap = bytes; memset(src, vf_fill_byte, gap); }
+}
+
 #define HT_BITS 10
 static vf_block *ht = NULL; static size_t ht_cap = 0, ht_n = 0;
 static pthread_mutex_t ht_mu = PTHREAD_MUTEX_INITIALIZER;
@@ -77,10 +96,11 @@ void *vf_malloc(size_t size, const char *file, int line, const char *func)
         if (++vf_fail_seen == vf_fail_k) { vf_fail_fired++; pthread_mutex_unlock(&ht_mu); return NULL; }
     }
     void *p;
-    if (vf_arena_alloc) p = vf_arena_alloc(size ? size : 1);
-    else p = malloc(size ? size : 1);
+    if (vf_arena_alloc) p = vf_arena_alloc((size ? size : 1) + VF_RZ);
+    else p = malloc((size ? size : 1) + VF_RZ);
     if (!p) { pthread_mutex_unlock(&ht_mu); return NULL; }
     if (vf_fill_byte >= 0) memset(p, vf_fill_byte, size);
+    memset((char *)p + size, VF_RZ_BYTE, VF_RZ);      /* red zone right after the block */
     if ((ht_n + 1) * 2 > ht_cap) ht_grow();
     vf_block b = { p, size, serial, file, line, func, vf_cur_tid ? vf_cur_tid() : 0 };
     ht_insert_raw(ht, ht_cap, &b); ht_n++;
@@ -101,6 +121,7 @@ void vf_free(void *p, const char *file, int line, const char *func)
         return;
     }
     size_t sz = b->size;
+    if (!rz_ok(p, sz)) { vf_n_overrun++; snprintf(vf_last_overrun, sizeof vf_last_overrun, "write past the end of a %zu-byte block allocated at %s:%d (%s), detected at free", sz, b->file, b->line, b->func); }
     b->p = TOMB; ht_n--;
     /* keep tombstones bounded */
     static size_t tombs = 0;
@@ -119,6 +140,16 @@ void vf_free(void *p, const char *file, int line, const char *func)
     }
 }
 
+long vf_check_redzones(void)
+{
+    long bad = 0;
+    for (size_t i = 0; i < ht_cap; i++) if (ht[i].p && ht[i].p != TOMB && !rz_ok(ht[i].p, ht[i].size)) {
+        bad++; vf_n_overrun++;
+        snprintf(vf_last_overrun, sizeof vf_last_overrun, "write past the end of a %zu-byte block allocated at %s:%d (%s)", ht[i].size, ht[i].file, ht[i].line, ht[i].func);
+        memset((char *)ht[i].p + ht[i].size, VF_RZ_BYTE, VF_RZ);
+    }
+    return bad;
+}
 int vf_owns(const void *p) { pthread_mutex_lock(&ht_mu); int r = ht_find(p) != NULL; pthread_mutex_unlock(&ht_mu); return r; }
 long vf_live_count(void) { return (long)ht_n; }
 size_t vf_live_bytes(void) { size_t s = 0; for (size_t i = 0; i < ht_cap; i++) if (ht[i].p && ht[i].p != TOMB) s += ht[i].size; return s; }
@@ -139,7 +170,7 @@ void vf_release_all(void)
 void vf_reset_case(void)
 {
     vf_fail_k = 0; vf_fail_func = NULL; vf_fail_seen = 0; vf_fail_fired = 0; vf_expand_requests = 0;
-    vf_n_free_unknown = 0; vf_n_free_null = 0; vf_last_bad_free[0] = 0; vf_abort_msg[0] = 0;
+    vf_n_free_unknown = 0; vf_n_free_null = 0; vf_last_bad_free[0] = 0; vf_abort_msg[0] = 0; vf_n_overrun = 0; vf_last_overrun[0] = 0;
 }
 
 void vf_abort(const char *msg)
